@@ -1,7 +1,7 @@
 (* C10 — concurrent requests are race-free, serialisable, and see immutable snapshots. *)
 From Coq Require Import Permutation.
 From VP Require Import Base Nonce NonceProofs Store StoreProofs Pool PoolProofs BalanceProofs Conc ConcProofs
-                       SerialProofs SerialFull Snapshot SnapshotProofs Locks LocksProofs.
+                       SerialProofs SerialFull SoloPool Snapshot SnapshotProofs Locks LocksProofs.
 From VPgen Require Import Facts.
 
 (* (a) every store operation is atomic: the in-memory driver takes its mutex before touching any
@@ -76,6 +76,28 @@ Theorem c10_request_alone : forall X E cfg now st u,
     np_eq (c_st c1) (fst (sstep X E now st (up_op u))) /\ s_link (c_st c1) = s_link st /\
     forall j, b_credit (node_bal (c_st c1) j) = b_credit (node_bal st j) + delta_sum st (full_adds X E cfg st u now) j.
 Proof. exact solo_run. Qed.
+(* ... and that one-at-a-time execution is the pool model's own Update ([Pool.pool_update], the
+   function the pool-level correspondence runs against the real pool on every check): a keep-alive
+   program run alone ends in exactly the store state pool_update computes, so the interleaved run
+   agrees with pool_update applied to the requests one after the other *)
+Theorem c10_request_alone_is_pool_update : forall cfg dep connected now_s now_b st i reported blk,
+  NodeKeys st ->
+  exists n, fin (solo cfg now_s st (update_prog cfg i reported blk now_b) n) /\
+            c_st (solo cfg now_s st (update_prog cfg i reported blk now_b) n) =
+            fst (pool_update cfg dep connected now_s now_b st i reported blk).
+Proof. exact solo_update_is_pool_update. Qed.
+Theorem c10_keepalives_serialisable_pool : forall cfg dep connected st0 us sch,
+  NoDup (map u_id us) -> NodeKeys st0 -> (forall u, In u us -> registered st0 (u_id u) = true) ->
+  let c' := run_sched (p_X cfg) (p_E cfg) {| c_st := st0; c_thr := map (uprog cfg) us |} sch in
+  forallb finished (c_thr c') = true ->
+  exists order,
+    Permutation (map fst order) (seq 0 (length us)) /\
+    s_nodes (pool_run cfg dep connected st0 us order) = s_nodes (c_st c') /\
+    s_peers (pool_run cfg dep connected st0 us order) = s_peers (c_st c') /\
+    s_link (pool_run cfg dep connected st0 us order) = s_link (c_st c') /\
+    forall j, b_credit (node_bal (pool_run cfg dep connected st0 us order) j) = b_credit (node_bal (c_st c') j).
+Proof. exact keepalives_serialisable_pool. Qed.
+Print Assumptions c10_keepalives_serialisable_pool.
 
 (* ... and the per-node lock itself: the keep-alives of one node go through a lock looked up (or
    created) in a map under the pool mutex and never removed from it (structural facts regenerated
